@@ -14,7 +14,7 @@ Spellings ==
     ND(FALSE, <<1>>, 33), ND(FALSE, <<9,0,0,7,1,9,9,2,5,4,7,4,0,9,9,3>>, 0), ND(FALSE, <<9,0,0,7,1,9,9,2,5,4,7,4,0,9,9,2>>, 0),
     S(<<>>), S(<<97>>), S(<<97,98>>), S(<<98>>), S(<<65>>), S(<<195,169>>), S(<<228,184,173>>), S(<<49>>), S(<<49,48>>), S(<<57>>), S(<<49,46,48>>), S(<<239,189,158>>), S(<<240,159,152,128>>), S(<<238,128,128>>), S(<<237,159,191>>), S(<<49,101,48>>), S(<<48,49>>), S(<<45,48>>), S(<<48>>),
     KwL("true"), KwL("false"), KwL("null"),
-    Id("int1"), Id("f1"), Id("f01"), Id("i64"), Id("negzero"), Id("s1"), Id("sa"), Id("nl"), Id("np"), Id("bt"), Id("i32"), Id("d3"), Id("undefined") }
+    Id("int1"), Id("f1"), Id("f01"), Id("i64"), Id("negzero"), Id("s1"), Id("sa"), Id("nl"), Id("np"), Id("bt"), Id("i32"), Id("d3"), Id("undefined"), Id("f19"), Id("f12e18"), Id("f63"), ND(FALSE, <<1>>, 19), ND(FALSE, <<9,2,2,3,3,7,2,0,3,6,8,5,4,7,7,5,8,0,7>>, 0) }
 CmpOps == {"<", ">", "<=", ">=", "==", "!=", "===", "!=="}
 \* every value kind for the negation laws, also the cross-kind and container cells the specification leaves open
 LawVals == Spellings \cup { <<"Arr", <<>>>>, <<"Arr", <<N(1)>>>>, Id("m5"), Id("t5") }
